@@ -18,9 +18,14 @@ import (
 
 // A construction program reaches the final option content of Base in a given way.
 type c07Prog struct {
-	Kind  int   `json:"kind"`  // 0 map literal, 1 UpdateOption, 2 OptionsFromList, 3 New(With...) modifiers, 4 encode half, decode, add the rest
+	Kind  int   `json:"kind"`  // 0 map literal, 1 UpdateOption, 2 OptionsFromList, 3 New(With...) modifiers, 4 encode half, decode, add the rest, 5 wrong values first, encode, then corrected through the exported map (same number of options)
 	Order []int `json:"order"` // permutation of option indices
 	Junk  []int `json:"junk"`  // positions at which a junk update+delete (or overwritten update) is interleaved
+	// PadEnd: bit 0 / bit 1: the Options map also holds the Pad key (0) / the End key (255) with some value. They are
+	// framing, not options: the encoder skips them (dhcpv4/options.go Marshal), so they change nothing on the wire.
+	PadEnd int `json:"pad_end,omitempty"`
+	// MidEncode: ToBytes is also called after every construction step (an encoding taken early must not pin the result)
+	MidEncode bool `json:"mid_encode,omitempty"`
 }
 
 type c07Case struct {
@@ -54,10 +59,39 @@ func c07Build(c gen.V4Case, pr c07Prog) *dhcpv4.DHCPv4 {
 		}
 		return dhcpv4.OptGeneric(dhcpv4.GenericOptionCode(c.Opts[i].Code), append([]byte{}, c.Opts[i].Val...))
 	}
+	mid := func() {
+		if pr.MidEncode {
+			_ = p.ToBytes()
+		}
+	}
 	switch pr.Kind {
 	case 0:
 		for _, i := range pr.Order {
 			p.Options[c.Opts[i].Code] = append([]byte{}, c.Opts[i].Val...)
+			mid()
+		}
+	case 5:
+		// every option present from the start with a wrong value (and one junk option in place of the last one);
+		// the packet is encoded; then the values are corrected through the exported map, the number of options
+		// staying the same throughout
+		for n, i := range pr.Order {
+			if n == len(pr.Order)-1 && junkCode != 0 {
+				p.Options[junkCode] = []byte("junk")
+				continue
+			}
+			p.Options[c.Opts[i].Code] = []byte{0xAA, byte(n)}
+		}
+		_ = p.ToBytes()
+		for n, i := range pr.Order {
+			if n == len(pr.Order)-1 && junkCode != 0 {
+				delete(p.Options, junkCode)
+			}
+			if n%2 == 0 {
+				p.Options[c.Opts[i].Code] = append([]byte{}, c.Opts[i].Val...)
+			} else {
+				p.Options.Update(opt(i))
+			}
+			mid()
 		}
 	case 1:
 		for n, i := range pr.Order {
@@ -72,6 +106,7 @@ func c07Build(c gen.V4Case, pr c07Prog) *dhcpv4.DHCPv4 {
 			if junkAt[n] && junkCode != 0 {
 				p.DeleteOption(dhcpv4.GenericOptionCode(junkCode))
 			}
+			mid()
 		}
 	case 2:
 		var l []dhcpv4.Option
@@ -108,7 +143,14 @@ func c07Build(c gen.V4Case, pr c07Prog) *dhcpv4.DHCPv4 {
 		p = q
 		for _, i := range pr.Order[half:] {
 			p.UpdateOption(opt(i))
+			mid()
 		}
+	}
+	if pr.PadEnd&1 != 0 {
+		p.Options[0] = []byte{1, 2, 3}
+	}
+	if pr.PadEnd&2 != 0 {
+		p.Options[255] = []byte{9}
 	}
 	return p
 }
@@ -282,7 +324,8 @@ func genC07() *rapid.Generator[c07Case] {
 		n := len(c.Base.Opts)
 		np := rapid.IntRange(2, 4).Draw(t, "nprogs")
 		for i := 0; i < np; i++ {
-			pr := c07Prog{Kind: rapid.IntRange(0, 4).Draw(t, "kind"), Order: rapid.Permutation(seq(n)).Draw(t, "order")}
+			pr := c07Prog{Kind: rapid.IntRange(0, 5).Draw(t, "kind"), Order: rapid.Permutation(seq(n)).Draw(t, "order"),
+				PadEnd: rapid.SampledFrom([]int{0, 0, 0, 1, 2, 3}).Draw(t, "padend"), MidEncode: rapid.Bool().Draw(t, "midencode")}
 			if n > 0 {
 				pr.Junk = rapid.SliceOfN(rapid.IntRange(0, n-1), 0, 3).Draw(t, "junk")
 			}
@@ -322,6 +365,9 @@ func TestC07_Permutations(t *testing.T) {
 			for _, p := range perms {
 				c07.one(t, c07Case{Base: base, Progs: []c07Prog{{Kind: 0, Order: seq(len(set))}, {Kind: kind, Order: p}}})
 			}
+		}
+		for pe := 1; pe <= 3; pe++ {
+			c07.one(t, c07Case{Base: base, Progs: []c07Prog{{Kind: 0, Order: seq(len(set))}, {Kind: 1, Order: seq(len(set)), PadEnd: pe}, {Kind: 5, Order: seq(len(set)), PadEnd: pe, MidEncode: true}}})
 		}
 	}
 	c07.rec.Class("permutation-enumeration")
